@@ -856,12 +856,28 @@ rci_t _mzd_top_echelonize_m4ri(mzd_t *A, int k, rci_t r, rci_t c, rci_t max_r) {
   int kk = 6 * k;
 
   mzd_t *U  = mzd_init(kk, A->ncols);
-  mzd_t *T0 = mzd_init(__M4RI_TWOPOW(k), A->ncols);
-  mzd_t *T1 = mzd_init(__M4RI_TWOPOW(k), A->ncols);
-  mzd_t *T2 = mzd_init(__M4RI_TWOPOW(k), A->ncols);
-  mzd_t *T3 = mzd_init(__M4RI_TWOPOW(k), A->ncols);
-  mzd_t *T4 = mzd_init(__M4RI_TWOPOW(k), A->ncols);
-  mzd_t *T5 = mzd_init(__M4RI_TWOPOW(k), A->ncols);
+  mzd_t *T  = mzd_init(6 * __M4RI_TWOPOW(k), A->ncols + m4ri_radix);
+
+  /* the table rows are combined with the rows of A by aligned vector loads:
+     give them the same 16-byte phase (cf. _mzd_echelonize_m4ri) */
+#if __M4RI_HAVE_SSE2
+  const rci_t align_offset = __M4RI_ALIGNMENT(mzd_row(A, 0), 16) * 8;
+#else
+  const rci_t align_offset = 0;
+#endif
+
+  mzd_t *T0 = mzd_init_window(T, 0 * __M4RI_TWOPOW(k), align_offset, 1 * __M4RI_TWOPOW(k),
+                              A->ncols + align_offset);
+  mzd_t *T1 = mzd_init_window(T, 1 * __M4RI_TWOPOW(k), align_offset, 2 * __M4RI_TWOPOW(k),
+                              A->ncols + align_offset);
+  mzd_t *T2 = mzd_init_window(T, 2 * __M4RI_TWOPOW(k), align_offset, 3 * __M4RI_TWOPOW(k),
+                              A->ncols + align_offset);
+  mzd_t *T3 = mzd_init_window(T, 3 * __M4RI_TWOPOW(k), align_offset, 4 * __M4RI_TWOPOW(k),
+                              A->ncols + align_offset);
+  mzd_t *T4 = mzd_init_window(T, 4 * __M4RI_TWOPOW(k), align_offset, 5 * __M4RI_TWOPOW(k),
+                              A->ncols + align_offset);
+  mzd_t *T5 = mzd_init_window(T, 5 * __M4RI_TWOPOW(k), align_offset, 6 * __M4RI_TWOPOW(k),
+                              A->ncols + align_offset);
   rci_t *L0 = (rci_t *)m4ri_mm_calloc(__M4RI_TWOPOW(k), sizeof(rci_t));
   rci_t *L1 = (rci_t *)m4ri_mm_calloc(__M4RI_TWOPOW(k), sizeof(rci_t));
   rci_t *L2 = (rci_t *)m4ri_mm_calloc(__M4RI_TWOPOW(k), sizeof(rci_t));
@@ -960,6 +976,7 @@ rci_t _mzd_top_echelonize_m4ri(mzd_t *A, int k, rci_t r, rci_t c, rci_t max_r) {
   m4ri_mm_free(L4);
   mzd_free(T5);
   m4ri_mm_free(L5);
+  mzd_free(T);
   mzd_free(U);
 
   __M4RI_DD_MZD(A);
